@@ -60,6 +60,7 @@ type Outcome struct {
 	Skipped    bool           // configuration legitimately refused by the library (trivial pass)
 	HarnessErr error          // trouble in the harness itself: exit 2, never a violation
 	Cells      []string       // fault_enumeration: cells visited by this run
+	Digest     string         // digest of the run's outputs (determinism self-test)
 }
 
 // Workload is one family of simulated runs of a property.
@@ -120,6 +121,7 @@ type WorkerResult struct {
 	WallS       float64                   `json:"wall_s"`
 	HarnessErr  string                    `json:"harness_err,omitempty"`
 	Extra       map[string]map[string]int `json:"extra,omitempty"`
+	RunDigests  []string                  `json:"run_digests,omitempty"` // "<workload>[<index>]=<hash of trace and outputs>"
 }
 
 func envInt(name string, def int64) int64 {
@@ -250,6 +252,15 @@ func Main(t *testing.T, property string, workloads []Workload) {
 				h.Write([]byte(k + "=" + out.Params[k] + ";"))
 			}
 			distinct[fmt.Sprintf("%x", h.Sum(nil)[:8])] = true
+		}
+		{
+			h := sha256.New()
+			for _, d := range out.Trace {
+				h.Write([]byte(d))
+				h.Write([]byte{0})
+			}
+			h.Write([]byte(out.Digest))
+			res.RunDigests = append(res.RunDigests, fmt.Sprintf("%s[%d]=%x", j.w.Name, j.index, h.Sum(nil)[:6]))
 		}
 		if out.Sample != nil && len(res.Samples) < 3 {
 			res.Samples = append(res.Samples, out.Sample)
